@@ -78,10 +78,23 @@ pub fn consistent_events(t: &mut Tape, b: &Built, gaps: &[u32], max_len: usize, 
     let mut down = vec![false; keys.len()];
     let n = t.range(1, max_len);
     let mut out = vec![];
+    // Known finding F6b (chords v2 hands at most 16 events per tick to the layout) is
+    // excluded by construction: with chords v2 at most 2 input events share a millisecond.
+    let chv2 = b.info.features.contains("chords-v2");
+    let mut run = 0;
     for _ in 0..n {
         let mut g = gaps[t.pick(gaps.len())];
         if one_per_ms && g == 0 {
             g = 1;
+        }
+        if g == 0 {
+            run += 1;
+            if chv2 && run >= 2 {
+                g = 1;
+                run = 0;
+            }
+        } else {
+            run = 0;
         }
         if g > 0 {
             out.push(Ev::Gap(g));
